@@ -218,7 +218,9 @@ class C01(Prop):
                   "model's dispatch log equals the scope semantics (receiver = recorder of the thread's innermost open scope, else global, else nobody; "
                   "payload = what the call site spells) and no entry reaches a recorder whose borrow ended; every emission is logged exactly once to "
                   "tls > global > no-op with the expanded payload; no operation of a thread changes another thread's pointer; dropping a guard restores "
-                  "the pointer saved at its installation and, under LIFO, the pointer is the recorder of the innermost open scope. A dispatch to a "
+                  "the pointer saved at its installation and, under LIFO, the pointer is the recorder of the innermost open scope; every nesting of "
+                  "with_local_recorder closures with emissions, set_global_recorder and panics (no guards handled by the program) lowers to a "
+                  "well-formed LIFO program. A dispatch to a "
                   "dead recorder happens only in the two open known classes (non-LIFO drop, mem::forget), each witnessed in Coq and replayed on the "
                   "real code. The model is tied to /repo by running the real functions and all 204 macro call sites on the same programs each run.")
     level_note = ("wf_prog is an assumption about which programs exist; it is enforced by rustc through the signature of "
